@@ -17,6 +17,8 @@ import (
 	"github.com/uber/kraken/core"
 	"github.com/uber/kraken/origin/blobclient"
 	"github.com/uber/kraken/utils/httputil"
+	"github.com/uber/kraken/utils/log"
+	"go.uber.org/zap"
 	"verifharness/hlib"
 )
 
@@ -62,10 +64,10 @@ type c35obs struct {
 
 func c35pat(s, n int) []byte {
 	out := make([]byte, n)
-	x := s % 65537
+	x := s & 0xFFFFF
 	for i := 0; i < n; i++ {
-		out[i] = byte(x % 256)
-		x = (75*x + 74) % 65537
+		out[i] = byte((x >> 12) & 255)
+		x = (77*x + 75) & 0xFFFFF
 	}
 	return out
 }
@@ -657,6 +659,7 @@ func c35exhaustive() []*c35case {
 }
 
 func c35(ctx *hlib.Ctx) {
+	log.SetGlobalLogger(zap.NewNop().Sugar()) // the code under test logs every failed attempt
 	r := hlib.NewRng(ctx.Seed)
 	cases := c35seeds()
 	if ctx.Tier == "thorough" {
